@@ -23,7 +23,18 @@ CORR = "_Solver_Update_solutions"
 
 
 class Vec(Lin):
-    pass
+    _xeval_attrs = ("count_nonzero", "nnz", "any")
+
+    # value tests a program can make on a state vector: a generic vector has a non-zero entry, the zero vector none
+    def count_nonzero(self):
+        return 1 if self.t else 0
+
+    @property
+    def nnz(self):
+        return 1 if self.t else 0
+
+    def any(self):
+        return bool(self.t)
 
 
 class Mat(Lin):
@@ -155,6 +166,7 @@ def run(ctx):
     ctx.attempt(validate_before_commit_rule, ctx)
     ctx.attempt(scheme_switch_frame_rule, ctx)
     ctx.attempt(newton_loop_rule, ctx)
+    ctx.attempt(load_equivalence_rule, ctx)
     # 'for all step sequences including switching algorithm or step size between steps': no memo of a scheme-dependent quantity survives a change of the scheme
     from ..shared import memo_rule as _memo_rule, cached_param_rule as _cached_param_rule
 
@@ -179,6 +191,7 @@ def run(ctx):
     r3 = ctx.rule("R5.3", "corrector satisfies the documented update relations and EVAL equals the documented evaluation point of the corrected state; predictor copies agree", min_instances=7)
     r4 = ctx.rule("R5.4", "conservation lemmas (midpoint, average-acceleration Newmark, backward Euler)", min_instances=3)
     r5 = ctx.rule("R5.5", "every AlgoType member is handled by each of the four tables and by the type lists", min_instances=8)
+    r15 = ctx.rule("R5.15", "the step is the same linear map at every state: with u_n, v_n, a_n (or some of them) zero - a body at rest with an initial acceleration, a released state - EVAL, the right-hand side and the corrector are the general expressions restricted to that state (no value-dependent shortcut)", min_instances=30)
     r6 = ctx.rule("R5.6", "no denominator of the four tables can vanish on the parameter range the setters accept", min_instances=7)
 
     fE, fC, fR, fD, fU = (repo.method(SIMU, n) for n in (EVAL, COEF, RHS, DIR, CORR))
@@ -301,6 +314,43 @@ def run(ctx):
                 bad = ", ".join(f"{a}: {c!r}" for a, c in list((got - want).t.items())[:4])
                 r3.fail(f"{fE.qualname}[{algo}]", name, fE.file, fE.lineno, EVAL,
                         f"AlgoType.{algo}: {name} of {EVAL} is not the documented evaluation point of the state returned by {CORR}; difference {bad}")
+
+        # ---- R5.15 restriction to states with vanishing parts
+        def drop(form, zero):
+            if form is None:
+                return None
+            return form.__class__({a: c for a, c in form.t.items() if a.split("@")[-1] not in zero})
+
+        for zero in (("u_n", "v_n"), ("a_n",), ("u_n",), ("v_n", "a_n"), ("u_n", "v_n", "a_n")):
+            r15.instance()
+            saved = {nm: obj.attrs["_Get_" + nm] for nm in ("u_n", "v_n", "a_n")}
+            for nm in zero:
+                obj.attrs["_Get_" + nm] = lambda *x, **k: Vec()
+            label = " = ".join(zero) + " = 0"
+            try:
+                got = dict(zip(("u_t", "v_t", "a_t"), I.call_function(fE, [PT, u1], self_obj=obj)))
+                got["b"] = I.call_function(fR, [PT], self_obj=obj)
+                got.update(zip(("u'", "v'", "a'"), I.call_function(fU, [PT, u1], self_obj=obj)))
+            except XRaise as e:
+                r15.fail(f"{fR.qualname}[{algo}]", f"state:{label}", fR.file, fR.lineno, RHS, f"AlgoType.{algo}: at a state with {label} the step raises {e}")
+                continue
+            finally:
+                obj.attrs.update({"_Get_" + nm: v for nm, v in saved.items()})
+            want = dict(zip(("u_t", "v_t", "a_t"), ev))
+            want["b"] = b
+            want.update(zip(("u'", "v'", "a'"), cr))
+            bad = []
+            for nm, g in got.items():
+                w = drop(want[nm], zero)
+                if (g is None) != (w is None) or (g is not None and not (g - w).is_zero()):
+                    fn = {"b": fR, "u'": fU, "v'": fU, "a'": fU}.get(nm, fE)
+                    bad.append((nm, fn, g, w))
+            if bad:
+                nm, fn, g, w = bad[0]
+                r15.fail(f"{fn.qualname}[{algo}]", f"state:{label}", fn.file, fn.lineno, fn.name,
+                         f"AlgoType.{algo}: at a state with {label} (the other parts arbitrary) {nm} is {g!r}; the general expression restricted to that state is {w!r}: the step treats a state whose parts vanish differently from the scheme")
+            else:
+                r15.ok(f"{algo}: {label}: EVAL, RHS, CORR are the restrictions of the general expressions")
 
     # ---- R5.4 conservation lemmas
     def lemma(algo, label, form, subs=None):
@@ -755,3 +805,36 @@ def scheme_switch_frame_rule(ctx):
             r.fail(f.qualname, f"switch:{label}:{k.split('__')[-1]}", f.file, f.lineno, f"_Simu.{mname}", f"selecting the scheme ({label}) changes `{k}` from {before.get(k)} to {snap(obj.attrs[k]) if k in obj.attrs else 'deleted'}: the next step no longer starts from the state the previous step returned (update relations and energy balance broken at the switch)")
         else:
             r.ok(f"{mname} ({label}): only the scheme descriptor changes")
+
+
+def load_equivalence_rule(ctx, rid="R5.16"):
+    """A load can reach the right-hand side two ways: through the Neumann vector (add_volumeLoad, add_surfLoad ... of the
+    dedicated simulations) or as the assembled vector F of the model (the linear form of a weak-form simulation).  For
+    every time scheme (and the static solve) the right-hand side `_Solver_Apply_Neumann` builds is interpreted into a
+    linear form: the two must enter it with the same weight (1), so that a weak-form simulation with l(v) = int f.v is
+    advanced exactly like the dedicated simulation with the load f."""
+    repo = ctx.repo
+    r = ctx.rule(rid, "a load given as the model's assembled vector F and the same load given through the Neumann vector enter the right-hand side of every scheme with the same weight", min_instances=8)
+    fR = repo.method(SIMU, RHS)
+    members = [m for m in repo.enum_members(ALGO)]
+    PT = Opaque("problemType")
+    for algo in members:
+        r.instance(fn=fR.qualname)
+        I = Interp(repo, extra_builtins={"Tic": lambda *a, **k: Sink()})
+        I.call_hook = call_hook
+        try:
+            if algo == "elliptic":
+                ev = EnumVal(repo.cls(ALGO), algo, repo.enum_members(ALGO)[algo])
+                obj, _ = make_self(repo, "newmark", I)
+                obj.attrs["_Simu__algo"] = ev
+            else:
+                obj, _ = make_self(repo, algo, I)
+            b = I.call_function(fR, [PT], self_obj=obj)
+        except XRaise as e:
+            r.fail(f"{fR.qualname}[{algo}]", "raises", fR.file, fR.lineno, RHS, f"AlgoType.{algo}: raises {e}")
+            continue
+        cF, cN = b.coef("F"), b.coef("f_ext")
+        if is_zero(Rat.of(cF) - Rat.of(cN)) and is_zero(Rat.of(cF) - 1):
+            r.ok(f"{algo}: b = F + f_ext + history terms")
+        else:
+            r.fail(f"{fR.qualname}[{algo}]", "load-weight", fR.file, fR.lineno, RHS, f"AlgoType.{algo}: the assembled load vector F enters the right-hand side with weight {cF!r} and the Neumann vector with weight {cN!r}: the same load written as a linear form (weak-form simulation) and applied with add_volumeLoad (dedicated simulation) is not advanced the same way")
